@@ -165,6 +165,24 @@ func (g *zzC08Gen) program(shape int) (defs []slip.Object, rest []slip.Object) {
 			zzDefun("zzset", zzL(S("v")), zzL(S("setq"), V, S("v"))),
 		}
 		rest = []slip.Object{g.tr(zzL(S("zzget"))), g.tr(zzL(S("zzset"), g.m())), g.tr(zzL(S("zzget")))}
+	case 10, 11:
+		// a defun evaluated inside a let whose variable its body uses (the function closes over the
+		// binding); its caller is defined before or after it (order), and it is redefined inside
+		// another let between two evaluations of the main form (shape 11: the second definition is at
+		// top level, without a closure)
+		mk := func(body slip.Object) slip.Object {
+			return zzL(S("let"), zzL(zzL(S("step"), g.m())), zzDefun("zzb", P, g.m(), body))
+		}
+		main := g.tr(zzL(S("zza"), g.m()))
+		defs = []slip.Object{
+			zzDefun("zza", P, g.m(), g.call("zzb", g.tr(S("p")))),
+			mk(zzL(S("+"), S("p"), S("step"))),
+		}
+		second := mk(zzL(S("list"), S("p"), S("step")))
+		if shape == 11 {
+			second = zzDefun("zzb", P, g.m(), zzL(S("list"), S("p"), g.m()))
+		}
+		rest = []slip.Object{main, second, main, g.tr(zzL(S("zzb"), g.m()))}
 	default:
 		g.invalid = true
 	}
